@@ -76,7 +76,7 @@ var standinRe = regexp.MustCompile(`STANDIN inputs=(\d+) bound="([^"]*)"`)
 
 // runStandins executes the bounded stand-ins registered for a property. They
 // are labelled bounded in the evidence and never counted as proved.
-func runStandins(repoDir, verif, prop, tier string, seed int) (records []map[string]interface{}, failures []string) {
+func runStandins(repoDir, verif, prop, tier string, seed int, known []KnownFinding) (records []map[string]interface{}, failures []string, knownHits []KnownFinding) {
 	for _, s := range loadRegistry(verif).Standins[prop] {
 		os.Setenv("VERIF_TIER", tier)
 		t0 := time.Now()
@@ -88,10 +88,52 @@ func runStandins(repoDir, verif, prop, tier string, seed int) (records []map[str
 			rec["bound"] = m[2]
 		}
 		ok := ran && !failed && strings.Contains(out, "ok  ")
+		if !ok && ran && failed {
+			// every reported failing input that a known-findings entry identifies
+			// (input=<regexp>) is a known finding; anything else is a violation
+			hits, unmatched := matchKnownInputs(out, prop, known)
+			if unmatched == 0 && len(hits) > 0 {
+				ok = true
+				rec["known_findings"] = len(hits)
+				knownHits = append(knownHits, hits...)
+			}
+		}
 		rec["passed"] = ok
 		records = append(records, rec)
 		if !ok {
 			failures = append(failures, s.Run+": "+out)
+		}
+	}
+	return
+}
+
+var replayFailRe = regexp.MustCompile(`REPLAY-FAIL [^\n]*`)
+var replayInputRe = regexp.MustCompile(`input=("(?:[^"\\]|\\.)*")`)
+
+func matchKnownInputs(out, prop string, known []KnownFinding) (hits []KnownFinding, unmatched int) {
+	seen := map[string]bool{}
+	for _, line := range replayFailRe.FindAllString(out, -1) {
+		m := replayInputRe.FindStringSubmatch(line)
+		matched := false
+		if m != nil {
+			if in, err := strconv.Unquote(m[1]); err == nil {
+				for _, k := range known {
+					if k.Status != "open" || k.Property != prop || k.Input == "" {
+						continue
+					}
+					if re, err := regexp.Compile(k.Input); err == nil && re.MatchString(in) {
+						matched = true
+						if !seen[k.Text] {
+							seen[k.Text] = true
+							hits = append(hits, k)
+						}
+						break
+					}
+				}
+			}
+		}
+		if !matched {
+			unmatched++
 		}
 	}
 	return
